@@ -16,6 +16,9 @@ for d in sorted(glob.glob("/verif/seeded/*/")):
         v = res[k]
         verdict = v.get("replay", {}).get("verdict", "") or v.get("replay", {}).get("broken", "")
         how.append("%s: %s" % (k, (verdict[:140] + ("…" if len(verdict) > 140 else "")) + (" (no-failing-input-found)" if "no-failing-input-found" in v["verdict"] else "")))
+    if meta.get("obsolete"):
+        rows.append((name, meta["property"], ", ".join(files), ", ".join(caught) or "none (no longer a violation)", ["OBSOLETE: " + meta["obsolete"]]))
+        continue
     rows.append((name, meta["property"], ", ".join(files), ", ".join(caught) or "MISSED", how))
 out = ["# Seeded changes\n",
        "Each directory holds a change to elastic/go-structform written by an independent sub-agent that was given only the text",
